@@ -73,7 +73,7 @@ def run(ctx):
                     "float(repr(x)) == x for the XML round trip",
                     "translator harness/translators/matdata.py; Coq-Interval (native integer/float primitives) and Coquelicot"]
     translators.import_all()
-    ctx.gen("MaterialData", translators.REGISTRY["MaterialData"])
+    gen_ok = ctx.gen("MaterialData", translators.REGISTRY["MaterialData"])
     ctx.prove("C20")
     if ctx.tier == "thorough":
         ctx.coqchk("C20")
@@ -259,7 +259,8 @@ def run(ctx):
         c, msg = findings[0]
         ctx.violation("%s (%d failing checks)" % (msg, len(findings)), {"case": {k: v for k, v in c.items() if k != "curves"}, "oracle": msg},
                       tag="C20:" + msg[:30])
-    failing = coq_eval_cases("c20", HEADER, terms, shard=200)
+    # without the generated tables there is nothing to evaluate the loaders against (the gen obligation is already broken)
+    failing = coq_eval_cases("c20", HEADER, terms, shard=200) if gen_ok else list(range(len(terms)))
     ctx.checker_cmds.append("coqc (vm_compute) on %d fatigue-curve selections" % len(terms))
     ctx.oblige("corr/fatigue-selection (%d evaluations)" % len(terms), "corr", not failing, "%d disagreements" % len(failing))
 
